@@ -276,6 +276,7 @@ pub fn h_pratt_chain<M: VMode, Er: VEr, const N: usize>() {
     run::<u8, Er, (), _>(|inp, s0| {
         let is_left = ch::any_bool();
         let x = ch::any_u16();
+        inp.state.quiet = true;
         let mut atom = anyp_multi::<SymIn<u8>, X<Er>>(0, N);
         atom.progress = true;
         let mut optok = anyp_multi::<SymIn<u8>, X<Er>>(3, N);
